@@ -48,6 +48,13 @@ CLAIMED.update({
    note="xml:base values are not compared literally: base fix-up is judged by nested relative hrefs inside included content reaching the files the model says they designate. Document-level (root element) includes are not generated."),
 })
 
+CLAIMED.update({
+ "C13": dict(engine="domsim", cat="exploration", ref="5.C13",
+   technique="deterministic simulation: seeded histories of DOM Core operations (incl. the forbidden ones as injected faults) executed step by step on real xerces-c documents and on RefDOM, a small executable reference model written from the DOM specification; refinement check (exception behaviour + parallel tree walk through public getters) after every step",
+   text="Each run creates 1-2 documents and executes a seeded history (quick 3-40 steps, thorough up to 800) of create*, insertBefore / appendChild / removeChild / replaceChild, cloneNode, importNode, adoptNode, renameNode, attribute set / remove by name and by node, character-data edits with arbitrary offsets, splitText, normalize, setTextContent, setUserData and release, with operands drawn from all live nodes of all documents and detached subtrees, so that the forbidden combinations (node into itself or a descendant, foreign-document node, reference child that is no child, second document element, out-of-range offset, invalid name) occur at the rate legal ones do. After every step: a forbidden call must have raised DOMException with a code of one of the violated preconditions and every call the model allows must have succeeded; then a parallel walk of all live roots compares type, name, value, namespace, parent / sibling / first / last / childNodes links in both directions, attribute maps and owner elements, ownerDocument, and the document element with the reference.",
+   note="The model does not mirror the Text children that carry attribute values, entity-reference subtrees (read-only targets) or DocumentType children; exhaustive enumeration of short histories is not done (seeded sampling only)."),
+})
+
 NOT_APPLICABLE = {
  "C03": "pure function of (document text, settings) to an event stream; no schedule, fault or history in it - deciding it needs an independent infoset oracle over generated inputs (property-based testing), not simulation; its only environment-dependent part (refill boundaries) is decided under C04",
  "C05": "finite pure function over code points and byte sequences, decided by enumeration, not by sampling schedules or faults; 'every buffer split position' is exercised by C04's targeted chunking",
